@@ -57,4 +57,67 @@ theorem session_exact (H : Crypto.Prims) (P : Prims) (L : SealLaws P) (kl : List
     · simp only [Session.run, List.foldl_cons, evsOf, List.flatMap_cons, after_append] at i3 ⊢
       exact i3
 
+/-- A1/A2 in one statement (the two named instances follow): a history of application-data `send` events of the RFC
+    sender (`Spec.TlsSender.run`), each record handed to `Session` with arbitrary carriers. -/
+theorem app_phase_exact (H : Crypto.Prims) (P : Prims) (L : SealLaws P) (kl : List Keylog.Key) (cls : CipherClass)
+    (macLen : Nat) (ver : Bytes) (hv : ver.length = 2) (evs : List Ev) (cars : List (List Nat))
+    (hc : cars.length = evs.length) (x : Snd) (s : Session.St Dec) (hs : Ready cls macLen x s)
+    (happ : ∀ e ∈ evs, IsAppSend e) (hev : ∀ e ∈ evs, EvOk cls macLen e)
+    (hq : max x.c.seq x.s.seq + evs.length ≤ seqLimit) (m : Bool) :
+    (wireRecs (run P L cls ver x evs) cars).length = evs.length ∧
+    (Session.run (Pipeline.ops H P kl) m s (wireRecs (run P L cls ver x evs) cars)).traffic
+      = s.traffic ++ List.zipWith (fun e (r : Session.Rec × Bool) => (⟨some (evPt e), r.1, evSrv e, true⟩ : Session.Entry))
+          evs (wireRecs (run P L cls ver x evs) cars) ∧
+    Ready cls macLen (after P L cls ver x evs)
+      (Session.run (Pipeline.ops H P kl) m s (wireRecs (run P L cls ver x evs) cars)) := by
+  obtain ⟨g1, g2, g3, g4, g5⟩ := histOf_spec cls macLen evs cars hc happ hev
+  have hrecs : recsOf P L cls ver x (histOf evs cars) = wireRecs (run P L cls ver x evs) cars := by
+    simp only [recsOf, evsOf, g1, g2]
+  obtain ⟨h1, h2, h3⟩ := session_exact H P L kl cls macLen ver hv (histOf evs cars) x s hs g4
+    (by simp only [evsOf, g1]; exact hq) m
+  rw [hrecs] at h1 h2 h3
+  simp only [evsOf, g1] at h3
+  exact ⟨by rw [h1, g3], by rw [h2, entriesOf, g5], h3⟩
+
+/-- A1 — application phase, SSL 3.0 – TLS 1.2, every cipher class: `Session` over the composed decryptor appends
+    exactly one entry per application-data record of the sender, in order, with the sender's plaintext, direction and
+    the application tag. -/
+theorem app_phase_exact_legacy (H : Crypto.Prims) (P : Prims) (L : SealLaws P) (kl : List Keylog.Key) (cls : CipherClass)
+    (h13 : cls.is13 = false) (macLen : Nat) (ver : Bytes) (hv : ver.length = 2) (evs : List Ev)
+    (cars : List (List Nat)) (hc : cars.length = evs.length) (x : Snd) (s : Session.St Dec) (v : Session.Ver)
+    (d : Dec) (hcan : s.canDecrypt = true) (hver : s.ver = some v) (hvne : v ≠ .tls13) (hdec : s.dec = some d)
+    (hR : Rel cls macLen x d) (happ : ∀ e ∈ evs, IsAppSend e) (hev : ∀ e ∈ evs, EvOk cls macLen e)
+    (hq : max x.c.seq x.s.seq + evs.length ≤ seqLimit) (m : Bool) :
+    (Session.run (Pipeline.ops H P kl) m s (wireRecs (run P L cls ver x evs) cars)).traffic
+      = s.traffic ++ List.zipWith (fun e (r : Session.Rec × Bool) => (⟨some (evPt e), r.1, evSrv e, true⟩ : Session.Entry))
+          evs (wireRecs (run P L cls ver x evs) cars) ∧
+    (wireRecs (run P L cls ver x evs) cars).length = evs.length := by
+  have hs : Ready cls macLen x s :=
+    ⟨hcan, ⟨v, hver, ⟨fun h => absurd h hvne, fun h => by rw [h13] at h; cases h⟩⟩, d, hdec, hR⟩
+  obtain ⟨h1, h2, _⟩ := app_phase_exact H P L kl cls macLen ver hv evs cars hc x s hs happ hev hq m
+  exact ⟨h2, h1⟩
+
+/-- A2 — application phase, TLS 1.3 (any epoch the two sides share; in particular after both Finished): the record
+    layer returns `content ‖ 23 ‖ zeros` (`Props.C01.tls13_returns_inner_plaintext`), `Session` strips the padding
+    and the content-type byte, and exactly the sender's plaintexts are appended — for every amount of padding
+    (`Fresh.pad13`) and every plaintext, including the empty one and plaintexts ending in zero bytes. -/
+theorem app_phase_exact_13 (H : Crypto.Prims) (P : Prims) (L : SealLaws P) (kl : List Keylog.Key) (cls : CipherClass)
+    (h13 : cls.is13 = true) (macLen : Nat) (ver : Bytes) (hv : ver.length = 2) (evs : List Ev)
+    (cars : List (List Nat)) (hc : cars.length = evs.length) (x : Snd) (s : Session.St Dec)
+    (d : Dec) (hcan : s.canDecrypt = true) (hver : s.ver = some .tls13) (hdec : s.dec = some d)
+    (hR : Rel cls macLen x d) (happ : ∀ e ∈ evs, IsAppSend e)
+    (hq : max x.c.seq x.s.seq + evs.length ≤ seqLimit) (m : Bool) :
+    (Session.run (Pipeline.ops H P kl) m s (wireRecs (run P L cls ver x evs) cars)).traffic
+      = s.traffic ++ List.zipWith (fun e (r : Session.Rec × Bool) => (⟨some (evPt e), r.1, evSrv e, true⟩ : Session.Entry))
+          evs (wireRecs (run P L cls ver x evs) cars) ∧
+    (wireRecs (run P L cls ver x evs) cars).length = evs.length := by
+  have hs : Ready cls macLen x s := ⟨hcan, ⟨.tls13, hver, ⟨fun _ => h13, fun _ => rfl⟩⟩, d, hdec, hR⟩
+  have hev : ∀ e ∈ evs, EvOk cls macLen e := by
+    intro e he
+    cases e with
+    | send srv typ pt f => exact sendOk_13 cls h13 macLen pt f
+    | switch srv => exact h13
+  obtain ⟨h1, h2, _⟩ := app_phase_exact H P L kl cls macLen ver hv evs cars hc x s hs happ hev hq m
+  exact ⟨h2, h1⟩
+
 end TLX.Props.C01Pipeline
